@@ -12,10 +12,16 @@
 (*  {"t":"ev","e":"store","k":K,"s":S,"len":N}                             *)
 (*  {"t":"ev","e":"reset"}                                                 *)
 (*                                                                         *)
-(* The LRU model is stepped with the logged key; the logged outcome,       *)
-(* victims and lengths must be the model's.  Also KeySound on what was     *)
-(* observed: a "sem" field (the ideal class of the request, when the       *)
-(* driver knows it) must be the same for all lookups of one key.           *)
+(* The trace spec keeps the set of present entries (key -> schema) from the *)
+(* logged events themselves and requires every event to be consistent with *)
+(* it: a hit only for a present key bound to the same schema, a miss only  *)
+(* for an absent key, a stale eviction only for a present key bound to     *)
+(* another schema; victims must be present; every logged length must equal *)
+(* the number of present entries and never exceed MaxEntries.  Which entry *)
+(* is evicted is the implementation's choice (the property does not        *)
+(* prescribe the replacement policy; the LRU design is model-checked in    *)
+(* PlanCache.tla).  KeySound on what was observed: a "sem" field (the      *)
+(* ideal class of the request) must be the same for all lookups of a key.  *)
 (***************************************************************************)
 EXTENDS Naturals, Sequences, FiniteSets, TLC, Json
 
@@ -43,10 +49,9 @@ Lookup ==
   /\ l <= Len(TraceLog) /\ Line.t = "ev" /\ Line.e = "lookup"
   /\ evs = <<>>
   /\ Line.out = Outcome(Line.k, Line.s)                         \* the logged outcome is the model's
-  /\ CASE Line.out = "hit" -> ent' = ent /\ ord' = ToFront(ord, Line.k)
-       [] Line.out = "stale" -> ent' = Drop(ent, Line.k) /\ ord' = Without(ord, Line.k)
+  /\ CASE Line.out = "stale" -> ent' = Drop(ent, Line.k) /\ ord' = ord
        [] OTHER -> UNCHANGED <<ent, ord>>
-  /\ Line.len = Len(ord')
+  /\ Line.len = Cardinality(DOMAIN ent')
   \* KeySound on observations: one key, one ideal class
   /\ IF "sem" \in DOMAIN Line
      THEN /\ (Line.k \in DOMAIN cls => cls[Line.k] = Line.sem)
@@ -63,20 +68,13 @@ Evict ==
 
 Store ==
   /\ l <= Len(TraceLog) /\ Line.t = "ev" /\ Line.e = "store"
-  /\ IF Line.k \in DOMAIN ent
-     THEN /\ evs = <<>>
-          /\ ent' = [ent EXCEPT ![Line.k] = Line.s]
-          /\ ord' = ToFront(ord, Line.k)
-     ELSE LET ord2 == <<Line.k>> \o ord
-              n == IF Len(ord2) > max THEN max ELSE Len(ord2)
-              keep == SubSeq(ord2, 1, n)
-              victims == [i \in 1..(Len(ord2) - n) |-> ord2[Len(ord2) + 1 - i]]
-              ent2 == Put(ent, Line.k, Line.s)
-          IN /\ evs = victims                                   \* exactly the LRU tail was evicted, oldest first
-             /\ ord' = keep
-             /\ ent' = [x \in { keep[i] : i \in 1..Len(keep) } |-> ent2[x]]
-  /\ Line.len = Len(ord')
-  /\ Len(ord') <= max
+  /\ \A i \in 1..Len(evs) : evs[i] \in DOMAIN ent /\ evs[i] # Line.k        \* victims were present
+  /\ LET gone == { evs[i] : i \in 1..Len(evs) }
+         ent2 == Put(ent, Line.k, Line.s)
+     IN /\ ent' = [x \in DOMAIN ent2 \ gone |-> ent2[x]]
+        /\ ord' = ord
+  /\ Line.len = Cardinality(DOMAIN ent')                                  \* exact entry accounting
+  /\ Line.len <= max                                                      \* the bound
   /\ evs' = <<>>
   /\ UNCHANGED <<max, cls>>
   /\ l' = l + 1
@@ -93,7 +91,7 @@ End == /\ l <= Len(TraceLog) /\ Line.t = "end" /\ evs = <<>> /\ l' = l + 1 /\ UN
 TNext == New \/ Lookup \/ Evict \/ Store \/ Reset \/ End
 TraceSpec == TInit /\ [][TNext]_tvars
 
-TraceInv == Len(ord) <= max \/ max = 0
+TraceInv == Cardinality(DOMAIN ent) <= max \/ max = 0
 
 TraceAccepted ==
   LET d == TLCGet("stats").diameter IN
